@@ -233,6 +233,9 @@ def shards(tier):
             alpha = alphabet(unit, which)
             if n == 3:
                 small.append({"part": part, "unit": unit, "alpha": which, "n": 2, "first": None})
+                # the same under a local time zone that is not UTC (half-hour offset, daylight saving): datetime64 values
+                # are naive, nothing may go through the machine's local time
+                small.append({"part": part, "unit": unit, "alpha": which, "n": 2, "first": None, "__env__": {"TZ": "America/St_Johns"}})
             for first in range(len(alpha)):
                 big.append({"part": part, "unit": unit, "alpha": which, "n": n, "first": first})
 
